@@ -82,19 +82,62 @@ def periodQuant (u bits sr : Nat) : Option Nat :=
   let p := u / sr
   if p == 0 || 2 ^ bits ≤ p then none else some (u / p)
 
-/-- the rate a re-open may report for the rate `sr` asked at open (vlib/geometry.py `rate_ok`, line by line) -/
+/-- the rate a reader derives from a binary32 field written for the integer rate `sr` (IRCAM): the integer rounded to
+    binary32 and cut back to an int; from 2^31 − 64 on the rounded value 2^31 does not fit the reader's int and the writer
+    stores the largest binary32 below it, 2^31 − 128 (`Sf.Ircam.rateQ`) -/
+def float32Quant (sr : Nat) : Nat := if sr < 2 ^ 31 - 64 then roundF32 sr else 2 ^ 31 - 128
+
+/-- the clause of a sample-period / time-constant field: EXACTLY the documented quantiser where the field can hold the
+    period, any positive rate where it cannot -/
+def periodOk (u bits sr : Nat) (got : Int) : Bool :=
+  match periodQuant u bits sr with
+  | some q => got == (q : Int)
+  | none => 1 ≤ got
+
+/-- VOC's sound blocks: type 1 (PCM_U8 mono) stores the 8-bit time constant 256 − 10^6 / sr, read back as
+    10^6 / (256 − tc) — the sample period in µs in an 8-bit field; type 8 (PCM_U8 stereo) the 16-bit time constant
+    65536 − 128·10^6 / sr — the period in units of 1 / 128 µs in a 16-bit field; type 9 (everything else) the rate itself.
+    Which block is written depends on the encoding and the channel count: (unit, bits) of the period field, `none` = type 9 -/
+def vocField (codec ch : Nat) : Option (Nat × Nat) :=
+  if codec == 0x05 then (if ch == 1 then some (10 ^ 6, 8) else some (128 * 10 ^ 6, 16)) else none
+
+/-- the rate a re-open may report for the rate `sr` asked at open, as far as the container (`major`) and `sr` decide it
+    (vlib/geometry.py `rate_ok` without the channel count, line by line).  Every clause is EXACT — it accepts exactly the
+    model's quantiser value — except `.divisor`, where the quantiser depends on the block type the encoding and the channel
+    count select: here it accepts what one of the three block types answers, `rateOkG` below is the exact clause. -/
 def rateOk (major sr : Nat) (got : Int) : Bool :=
   match rateClass major with
   | .exact => got == (sr : Int)
   | .caller => true
   | .fixed => true
-  | .field16 => 65536 ≤ sr || got == (sr : Int)
-  | .float32 => 2 ^ 31 - 64 ≤ sr || got == (roundF32 sr : Int)
+  | .field16 => got == ((min sr 65535 : Nat) : Int)          -- saturating 16-bit field
+  | .float32 => got == ((float32Quant sr : Nat) : Int)      -- EXACTLY the binary32 round trip (capped)
   | .period u b =>
     match periodQuant u b sr with
     | some q => got == (q : Int)          -- EXACTLY the documented quantiser
     | none => 1 ≤ got                     -- the field cannot express the rate: any positive rate
-  | .divisor => !(4000 ≤ sr && sr ≤ 200000) || (got - (sr : Int)).natAbs ≤ max 1 (sr * sr / 10 ^ 6 + 1)
+  | .divisor => got == (sr : Int) || periodOk (10 ^ 6) 8 sr got || periodOk (128 * 10 ^ 6) 16 sr got
+
+/-- THE EXACT RATE CLAUSE on a whole geometry (vlib/geometry.py `rate_ok` with the channel count): for VOC the block type
+    is known — the type 9 block gives the rate back as asked, the type 1 / type 8 blocks EXACTLY the time-constant
+    quantiser `u / (u / sr)` where the field can hold the period (any positive rate where it cannot); every other container
+    is decided by `rateOk` -/
+def rateOkG (g : Geom) (got : Int) : Bool :=
+  if g.major == 0x08 then
+    match vocField g.codec g.ch with
+    | some (u, b) => periodOk u b g.sr got
+    | none => got == (g.sr : Int)
+  else rateOk g.major g.sr got
+
+/-- the rule of the `.divisor` class before round 9: a first-order tolerance inside 4000 … 200000 Hz, anything outside -/
+def divisorTolOld (sr : Nat) (got : Int) : Bool :=
+  !(4000 ≤ sr && sr ≤ 200000) || (got - (sr : Int)).natAbs ≤ max 1 (sr * sr / 10 ^ 6 + 1)
+
+/-- … and of the float32 class: nothing was asked from 2^31 − 64 Hz on -/
+def float32CapOld (sr : Nat) (got : Int) : Bool := 2 ^ 31 - 64 ≤ sr || got == (roundF32 sr : Int)
+
+/-- … and of the 16-bit class: nothing was asked from 65536 Hz on -/
+def field16Old (sr : Nat) (got : Int) : Bool := 65536 ≤ sr || got == (sr : Int)
 
 /-! ## C01 — the lossless side condition -/
 
@@ -339,5 +382,18 @@ def judge (r : Record) : List Fail :=
 
 /-- the record is accepted: no clause fails -/
 def accepted (r : Record) : Bool := (judge r).isEmpty
+
+/-- a clause after which the re-open line is not judged (or the rate clause has failed already) -/
+def rateSettled (f : Fail) : Bool := f.tag == "record" || f.tag == "open" || f.tag == "reopen" || f.tag == "rate"
+
+/-- THE PREDICATE WITH THE EXACT RATE CLAUSE (what `sfmodel abs-write` evaluates): `judge`, and on a record whose re-open
+    line is judged the rate clause on the whole geometry (`rateOkG`: for VOC the block type decides the quantiser) -/
+def judgeG (r : Record) : List Fail :=
+  let fs := judge r
+  if fs.any rateSettled then fs
+  else if rateOkG r.g r.info.sr then fs
+  else fs ++ [{ tag := "rate" }]
+
+def acceptedG (r : Record) : Bool := (judgeG r).isEmpty
 
 end Sf.AbsWrite
